@@ -19,8 +19,9 @@ RULE = (
     "its position relative to enter / exit / save_end|save_failed per acknowledge type; and, for EVERY prefix of "
     "the trace (= crash after that event), no message is acked whose configured point is not inside the prefix. "
     "Non-trivial: >=2 overlapping executions or an outcome other than plain return; distinct = canonical JSON."
+    " Part 'pool_shutdown': 1-2 sync task functions blocking in a REAL thread pool while a graceful stop's wait_tasks_timeout (0-50 ms) expires; the harness opens their gate only after listen() has returned; under when_executed / when_saved every ack must come after the function's own exit event (verdict from the order of events only)."
 )
-ASSUMPTIONS = [
+ASSUMPTIONS = ["part pool_shutdown uses a real event loop and a real ThreadPoolExecutor; all other parts run on the virtual-time loop with inline sync functions", 
     "crash = the process vanishes after an observable event (trace prefix); cancellation-style kills are not modelled",
     "virtual-time loop, inline executor for sync tasks",
     "failing middleware hooks are outside the quantifier of C02 (they are in C03's)",
